@@ -10,6 +10,7 @@ Line-protocol driver for C05.
 `kekn <molA> <molK> k (<len> <atoms…>)×k`         → `ok norm=<0|1>` | `reject …` | `prep-raise`
                                                      (`prepareRings` → `normalise` → `checkKekule` ∧ `checkMatching`)
 `thi <molK> <molT>`                                → `ok` | `reject …`                 (`checkThiele`)
+`lab <mol>`                                        → `n:hyb:neighbours;…` in `_atoms` order (`hybridization`, `neighborsOf`: the labels `calc_labels` writes)
 `tmono <mol> <len> <ring atoms…>`                  → `<0|1> <kind>`                    (`monoAromatic`, `ringKind`)
 `tnf <molK> k (<len> <atoms…>)×k`                  → `freak` | `<0|1> | <mol wire>`     (`thieleNoFix`)
 `thr <molK> <molT> k (<len> <atoms…>)×k`          → `ok` | `reject`                   (`aromatisedOnlyEligible`)
@@ -165,6 +166,10 @@ def handle (line : String) : String :=
           | some (t, []) => if checkThiele k t then "ok" else s!"reject thiele {explainThi k t}"
           | _ => "badwire"
         | none => "badwire"
+      | "lab" =>
+        match Mol.parse xs with
+        | some (m, []) => ";".intercalate (m.ids.map fun n => s!"{n}:{hybridization m n}:{neighborsOf m n}")
+        | _ => "badwire"
       | "tmono" =>
         match Mol.parse xs with
         | some (m, len :: rest) =>
